@@ -77,6 +77,15 @@ def run(ctx, model_ok):
         if val < 0:
             continue
         cases.append({"text": f"{lit(a, sa, rng)} {op} {lit(b, sb, rng)}", "n": float(val), "tgt": sa, "kind": "arith"})
+    # words in front of the literal whose lower / upper case has another byte length (İ, ß, ŉ): parsers that look at a case-mapped
+    # copy of the line must still find the literal where it is
+    for code in hexcodes[:6] + ["ff"]:
+        for w in ["İndirim", "İade", "straße", "ŉx", "İİİ"]:
+            digs = rng.choice("123456789") + code.lower() + rng.choice(["", "0", "7f"])
+            for tgt in rng.sample(list(BASES), 2):
+                pre = rng.choice(["0x", "0X"])
+                cases.append({"text": f"{w} {pre}{digs} to {tgt}", "n": float(int(digs, 16)), "tgt": tgt, "kind": "convert"})
+            cases.append({"text": f"{w} 0x{digs}", "n": float(int(digs, 16)), "tgt": "hex", "kind": "convert"})
     # a fractional value whose base tag comes from arithmetic on a based literal, held in a variable, then converted
     import math as _m
     for _ in range(ctx.n(150, 3000)):
